@@ -45,9 +45,14 @@ def strat_case(draw, tier):
     x1, x2 = sorted([draw(_mag()), draw(_mag())])
     if x1 == x2:
         x2 = x1 * 2
+    # end points written as python integers (the library itself writes 1 and -1 for the cut-offs of its representations)
+    int_ends = draw(st.integers(0, 9)) == 0
+    if int_ends:
+        x1 = draw(st.integers(1, 3))
+        x2 = x1 + draw(st.integers(1, 3))
     a, b = {
-        "(-inf,b<0]": (-INF, -x1), "[a<0,b<0]": (-x2, -x1), "[a,0]": (-x1, 0.0), "straddling": (-x1, x2),
-        "[0,b]": (0.0, x2), "[a>0,b]": (x1, x2), "[a>0,inf)": (x1, INF), "(-inf,inf)": (-INF, INF),
+        "(-inf,b<0]": (-INF, -x1), "[a<0,b<0]": (-x2, -x1), "[a,0]": (-x1, 0 if int_ends else 0.0), "straddling": (-x1, x2),
+        "[0,b]": (0 if int_ends else 0.0, x2), "[a>0,b]": (x1, x2), "[a>0,inf)": (x1, INF), "(-inf,inf)": (-INF, INF),
         "(-inf,b>0]": (-INF, x2), "[a<0,inf)": (-x1, INF),
     }[cls]
     if cls == "straddling" and draw(st.booleans()):
@@ -66,6 +71,12 @@ def strat_case(draw, tier):
     trunc = None
     if draw(st.booleans()):
         trunc = [-draw(_mag()), draw(_mag())]
+        # one-sided restrictions (only upward or only downward jumps kept): a bound exactly at zero
+        side = draw(st.integers(0, 11))
+        if side == 0:
+            trunc[0] = 0.0
+        elif side == 1:
+            trunc[1] = 0.0
     # a second truncation applied on top of the first (a pre-truncated model truncated again by a chain): the result
     # is the restriction to the intersection, whether the second interval is nested in the first or not
     trunc2 = None
@@ -226,12 +237,12 @@ def body(case):
         ia, ib = max(a, l), min(b, r)
         compare(tnu, base_nu, a, b, "truncated", interval_for_ref=(ia, ib))
         # density vanishes outside the truncation interval and equals the base density inside
-        for x in (l * 1.5, r * 1.5, l - 1e-9, r + 1e-9):
+        for x in (l * 1.5 if l < 0 else -0.37, r * 1.5 if r > 0 else 0.37, l - 1e-9, r + 1e-9):
             if float(tnu(x)) != 0.0:
                 out.append(Violation(f"C09/{br}/truncated/density-nonzero-outside",
                                      f"nu_trunc({x}) = {tnu(x)!r} with truncation {l, r}"))
         for x in (l * 0.5, r * 0.5):
-            if float(tnu(x)) != float(base_nu(x)):
+            if x != 0.0 and float(tnu(x)) != float(base_nu(x)):
                 out.append(Violation(f"C09/{br}/truncated/density-differs-inside",
                                      f"nu_trunc({x}) = {tnu(x)!r} vs nu = {base_nu(x)!r}"))
         sup = tnu.support()
@@ -249,6 +260,89 @@ def body(case):
                                          f"nu({x}) = {tnu2(x)!r} after truncations {l, r} then {l2, r2}"))
                     break
     return out
+
+
+# ------------------------------------------------------------------------------------ far tails, exact reference
+@st.composite
+def strat_far(draw, tier):
+    spec = draw(model_spec(families=("vg", "hem"), exp=False))
+    spec["route"] = "direct"
+    return {"model": spec, "n": draw(st.integers(0, 6)), "side": draw(st.sampled_from(["pos", "neg"])),
+            "k": draw(st.floats(8.0, 60.0).map(lambda v: float(f"{v:.4g}"))),
+            "width": draw(st.sampled_from([None, 0.01, 0.3, 2.0])),
+            "truncated": draw(st.sampled_from([None, 1.5, 0.5]))}
+
+
+def _exp_power_integral(c, alpha, p_, lo, hi):
+    """c * integral_lo^hi x^(p_-1) exp(-alpha x) dx for 0 < lo < hi <= inf, p_ >= 0 (regularised incomplete gamma /
+    exponential integral: accurate in relative terms however far the interval lies)"""
+    from scipy.special import exp1, gamma, gammaincc
+
+    if p_ == 0:
+        return c * (float(exp1(alpha * lo)) - (float(exp1(alpha * hi)) if math.isfinite(hi) else 0.0))
+    q = float(gammaincc(p_, alpha * lo)) - (float(gammaincc(p_, alpha * hi)) if math.isfinite(hi) else 0.0)
+    return c * float(gamma(p_)) * alpha ** (-p_) * q
+
+
+def body_far(case):
+    from rpylib.model.levymodel.levymodel import TruncatedLevyMeasure
+
+    out = []
+    spec, n, pos = case["model"], case["n"], case["side"] == "pos"
+    p_ = spec["params"]
+    model = build_model(spec)
+    nu = model.levy_triplet.nu
+    if spec["family"] == "hem":
+        alpha = p_["eta1"] if pos else p_["eta2"]
+        c = p_["intensity"] * (p_["p"] if pos else 1.0 - p_["p"]) * alpha
+        power = n + 1
+    else:
+        s2 = p_["sigma"] ** 2
+        lp = math.sqrt(p_["theta"] ** 2 + 2 * s2 / p_["nu"]) / s2 - p_["theta"] / s2
+        alpha = lp if pos else lp + 2 * p_["theta"] / s2
+        c = 1.0 / p_["nu"]
+        power = n
+    if c <= 0.0:
+        return [Violation("REJECTED", "no mass on that side")]
+    # the re-typed density must be the library's (otherwise the harness is wrong, not the library)
+    x0 = (1.0 if pos else -1.0) * 2.0 / alpha
+    mine = c * math.exp(-alpha * abs(x0)) * (1.0 if spec["family"] == "hem" else 1.0 / abs(x0))
+    if abs(float(nu(x0)) - mine) > 1e-9 * mine:
+        from vlib.core import HarnessError
+
+        raise HarnessError(f"re-typed density {mine} differs from the library's {float(nu(x0))} at {x0}: {spec}")
+    lo = case["k"] / alpha
+    hi = INF if case["width"] is None else lo * (1.0 + case["width"])
+    if case["truncated"] is not None:
+        r = lo * (1.0 + case["truncated"])
+        nu = TruncatedLevyMeasure(nu, (-r, r))
+        hi_ref = min(hi, r)
+    else:
+        hi_ref = hi
+    sign = 1.0 if pos or n % 2 == 0 else -1.0
+    ref = sign * _exp_power_integral(c, alpha, power, lo, hi_ref)
+    tail = abs(_exp_power_integral(c, alpha, power, lo, INF))
+    if ref == 0.0 or not math.isfinite(ref):
+        return [Violation("REJECTED", "reference underflows")]
+    a, b = (lo, hi) if pos else (-hi, -lo)
+    br = branch_of(spec)
+    for name, fn in _entry_points(nu, n):
+        if name == "integrate_against_xn" and n >= 3 and spec["family"] == "hem":
+            continue  # generic scipy.quad fallback at default accuracy (decided in the main sub-check)
+        val = float(fn(a, b))
+        tol = 1e-9 * abs(ref) + 1e-10 * tail
+        if not math.isfinite(val) or abs(val - ref) > tol:
+            out.append(Violation(f"C09/{br}/far-tail/{name}/n={min(n, 3)}{'+' if n > 3 else ''}/differs-from-closed-form",
+                                 f"{name}({a},{b},n={n}) = {val!r}, closed form {ref!r} ({case['k']} decay lengths from zero, "
+                                 f"tail integral {tail!r}); model={spec} truncated={case['truncated']}"))
+    return out
+
+
+def classify_far(case):
+    k = case["k"]
+    return [branch_of(case["model"]), f"n={case['n']}", case["side"], "half-line" if case["width"] is None else "finite",
+            "k<20" if k < 20 else ("k<37" if k < 37 else "k>=37"),
+            "truncated" if case["truncated"] else "untruncated"], k >= 20
 
 
 def classify(case):
@@ -278,4 +372,11 @@ SUBCHECKS = [
              strategy=strat_case, budget={"quick": 6400, "thorough": 60000},
              shards={"quick": 16, "thorough": 16},
              essential_labels=("cgmy/y=0", "cgmy/y=1", "cgmy/y<0", "straddling", "truncation-cuts-interval")),
+    SubCheck("far-tails-vs-closed-form", body_far, classify_far,
+             rule="HEM and VG (densities c*exp(-alpha|x|) and c*exp(-alpha|x|)/|x|) x n in 0..6 x side x interval starting "
+                  "8..60 decay lengths from zero (half-line or finite, optionally through a truncated measure): every entry "
+                  "point vs the incomplete-gamma / exponential-integral closed form of the re-typed density (checked "
+                  "against the library's density), relative 1e-9 + 1e-10 of the tail integral from the nearer end point; "
+                  "non-trivial = at least 20 decay lengths",
+             strategy=strat_far, budget={"quick": 3200, "thorough": 20000}, shards={"quick": 16, "thorough": 16}),
 ]
